@@ -257,10 +257,10 @@ def method_names(spec):
     return "To" + p, "From" + p
 
 
-def render_src(spec, modpath):
+def render_src(spec, modpath, pkgname="src"):
     s = spec["src"]
     mp = spec.get("mapper")
-    body = ["package src", ""]
+    body = ["package " + pkgname, ""]
     need_dest = any(mentions_pkg(t, "dest") for t in all_types(spec) if True) and (
         any(mentions_pkg(m["type"], "dest") for _, m in leaves(s)) or
         (mp and any(mentions_pkg(f["param"], "dest") or mentions_pkg(f["result"], "dest") for f in mp["funcs"])))
@@ -312,7 +312,7 @@ def map_args(spec, typ, to=None):
     return a
 
 
-ORACLE_TMPL = """package src
+ORACLE_TMPL = """package %(pkg)s
 
 import (
 	"%(mod)s/dest"
@@ -337,8 +337,11 @@ def go_strs(xs):
 def make_case(cid, spec, masks=None, fmasks=None, roundtrip=False, prop="C05"):
     """pkgrun case: files, runs, oracle, sexp"""
     mod = "verifcases/c_" + cid
-    files = {"src/types.go": SRC_TYPES_GO, "dest/types.go": DEST_TYPES_GO,
-             "src/s.go": render_src(spec, mod), "dest/d.go": render_dest(spec)}
+    # the source package gets a per-case NAME (the directory stays `src`): the mapper sometimes emits `<pkgname>.T(x)`
+    # and goimports would otherwise resolve it to the `src` package of another case of the same scratch module
+    pkg = "src" + "".join(ch for ch in cid if ch.isalnum())
+    files = {"src/types.go": SRC_TYPES_GO.replace("package src", "package " + pkg), "dest/types.go": DEST_TYPES_GO,
+             "src/s.go": render_src(spec, mod, pkg), "dest/d.go": render_dest(spec)}
     runs = []
     # constructors/accessors first (C15)
     if spec["dest"]["kind"] == "new":
@@ -353,7 +356,7 @@ def make_case(cid, spec, masks=None, fmasks=None, roundtrip=False, prop="C05"):
             runs.append({"args": map_args(helper, sub), "cwd": "src"})
     runs.append({"args": map_args(spec, spec["sname"], spec["dname"]), "cwd": "src"})
     to, frm = method_names(spec)
-    oracle = ORACLE_TMPL % {"mod": mod, "s": spec["sname"], "d": spec["dname"], "to": to, "from": frm,
+    oracle = ORACLE_TMPL % {"pkg": pkg, "mod": mod, "s": spec["sname"], "d": spec["dname"], "to": to, "from": frm,
                             "masks": go_strs(masks or []), "fmasks": go_strs(fmasks or []),
                             "rt": "true" if roundtrip else "false"}
     return {"id": cid, "spec": spec, "files": files, "runs": runs, "oracle": {"src": oracle},
@@ -558,7 +561,8 @@ class MapGen:
                 sp = ()          # tags are read at the top level only
             sfields[sp].append(F(sn, a, tag))
             dfields[dp].append(F(dn, b))
-            if kind == "func" or (kind in ("conv", "same", "sub") and r.random() < o.get("func_over", 0.15)):
+            if (kind == "func" or (kind in ("conv", "same", "sub") and r.random() < o.get("func_over", 0.15))) and not (
+                    elem_struct(a) or elem_struct(b)):
                 way = r.random()
                 if way < 0.8:
                     funcs.append({"param": a, "result": b})
@@ -595,6 +599,18 @@ class MapGen:
                 else:
                     sfields[()] += [F(a, t), F(b, t)]
                     dfields[()].append(F(b, t))
+        # `map:"-"` (or a name tag) on a PROMOTED field: the generator does not read tags below the top level
+        if r.random() < o.get("nested_tag", 0.0):
+            cands = [f for p in spaths if p for f in sfields[p] if f["tag"] is None]
+            if cands:
+                self.pick(cands)["tag"] = "-"
+        # a top-level `map:"-"` field with a promoted namesake
+        if r.random() < o.get("skip_shadow", 0.0):
+            for fields, paths in ((sfields, spaths), (dfields, dpaths)):
+                cands = [f for p in paths if p for f in fields[p] if f["name"][:1].isupper()]
+                if cands and all(g["name"] != cands[0]["name"] for g in fields[()]):
+                    fields[()].append(F(cands[0]["name"], cands[0]["type"], "-"))
+                    break
         for fs in list(sfields.values()) + list(dfields.values()):
             r.shuffle(fs)
 
